@@ -185,12 +185,12 @@ fn c11_o4_take_until_secure_prefix() {
 //@ cap: 900
 //@ standins: vcoll
 //@ desc: take_until_secure on fewer than 20 nodes (n = 3) returns all of them as a prefix for symbolic est/subnets drawn from the value set
-//@ bounds: 3 concrete nodes; est in {0, 1, 1000, usize::MAX}; subnets symbolic; unwind 6
+//@ bounds: 3 concrete nodes; est in {0, 1, 1000, usize::MAX}; subnets symbolic; unwind 22 (20-byte id xor)
 //@ stubs: std::time::Instant::now -> symbolic whole-second clock
 //@ functions: ClosestNodes::take_until_secure
 #[kani::proof]
 #[kani::stub(std::time::Instant::now, clock::now)]
-#[kani::unwind(6)]
+#[kani::unwind(22)]
 fn c11_o4b_take_until_secure_small() {
     clock::set(0);
     let t = Id::from([0u8; 20]);
